@@ -59,6 +59,11 @@ class KeyFacts:
         """(map name, owner) if e is `<owner>[._cache].<map>` of a Cache"""
         if not isinstance(e, ast.Attribute) or e.attr not in MAPS:
             return None
+        # a local that only ever holds `<table>._cache` (also `a, b = x._cache, y._cache`) stands for that cache
+        if isinstance(e.value, ast.Name):
+            vals = list(self._assigned_values(e.value.id))
+            if len(vals) == 1 and isinstance(vals[0], ast.Attribute) and vals[0].attr == "_cache" and not self._is_param(e.value.id):
+                e = ast.Attribute(value=vals[0], attr=e.attr, ctx=ast.Load())
         owner = cache_owner(e)
         if owner is None:
             return None
@@ -181,6 +186,10 @@ class KeyFacts:
             f = enclosing_function(f)
         return None
 
+    def _is_param(self, name):
+        a = getattr(self.func, "args", None)
+        return a is not None and any(x.arg == name for x in a.args + a.kwonlyargs + a.posonlyargs)
+
     def _is_table_param(self, name):
         return self._ann(name) == "Table"
 
@@ -231,7 +240,7 @@ class KeyFacts:
         """pairs of set variables known equal at `at` (`if a != b: raise` dominates)"""
         out = []
         for t, pol in preceding_guards(at, self.func):
-            if not pol and isinstance(t, ast.Compare) and len(t.ops) == 1 and isinstance(t.ops[0], ast.NotEq):
+            if isinstance(t, ast.Compare) and len(t.ops) == 1 and ((not pol and isinstance(t.ops[0], ast.NotEq)) or (pol and isinstance(t.ops[0], ast.Eq))):
                 if isinstance(t.left, ast.Name) and isinstance(t.comparators[0], ast.Name):
                     out.append((t.left.id, t.comparators[0].id))
         return out
